@@ -278,7 +278,7 @@ def run(E: Engine, rep: Report, tier: str) -> dict:
     # round 5 (independent audit): on a parametrized sequence config_slm_mask() returns early -- the once-only rule and the
     # availability of the DMM (which the regular path and _config_detuning_map enforce) are decided before that return
     csm = E.method(SEQ, "config_slm_mask")
-    par_raises = [l for l in _S2(E, csm).logged("raise") if l.fn == csm.short and any(_is2(x, "self.is_parametrized()") is not None for x in _sym2.conj_of(l.cond))]
+    par_raises = [l for l in _S2(E, csm).logged("raise") if any(_is2(x, "self.is_parametrized()") is not None for x in _sym2.conj_of(l.cond))]
     once = any(_ment13(l.cond, "_slm_mask_targets") or (_ment13(l.cond, "_to_build_calls") and "config_slm_mask" in _sh13(l.cond, 2000)) for l in par_raises)
     avail = any(_ment13(l.cond, "available_channels") for l in par_raises)
     rep.check(once, "MODE", "Sequence.config_slm_mask|once-only-on-parametrized-sequence", "a second SLM mask is refused on the parametrized path too", "on a parametrized sequence config_slm_mask() returns before the 'SLM mask can be configured only once' guard: a second mask is accepted (declared_channels then lists dmm_0 and dmm_0_1) and only build() fails", E.where(csm))
